@@ -916,7 +916,8 @@ impl World {
         let res = match res {
             Err(p) => {
                 let bsite = format!("{site}/buf{}", boundary_class(buflen, &fields, predicted));
-                self.flag(&["C10"], "panic", &bsite, &format!("write_message panicked: {p}; buf={buflen} predicted={predicted}"));
+                let props: &[&str] = if buflen < predicted + TAGLEN || predicted > MAXMSG { &["C10", "C14"] } else { &["C10"] };
+                self.flag(props, "panic", &bsite, &format!("write_message panicked: {p}; buf={buflen} predicted={predicted}"));
                 self.stats.aborted_by_panic += 1;
                 node.st = St::Gone("panic");
                 self.drain_cipher_log(i, &site, false);
@@ -1157,7 +1158,8 @@ impl World {
         };
         let res = match res {
             Err(p) => {
-                self.flag(&["C10"], "panic", &format!("{site}/buf{}", boundary_class(buflen, &fields, predicted)), &format!("transport write panicked: {p}"));
+                let props: &[&str] = if buflen < predicted + TAGLEN || predicted > MAXMSG { &["C10", "C14"] } else { &["C10"] };
+                self.flag(props, "panic", &format!("{site}/buf{}", boundary_class(buflen, &fields, predicted)), &format!("transport write panicked: {p}"));
                 self.stats.aborted_by_panic += 1;
                 node.st = St::Gone("panic");
                 self.harness_nonce_call = false;
@@ -1413,7 +1415,8 @@ impl World {
         let res = match res {
             Err(p) => {
                 let cls = if meta.is_some() { format!("{srckind}-{mkind}") } else { "garbage".into() };
-                self.flag(&["C10"], "panic", &format!("{site}/{cls}"), &format!("read_message panicked: {p}; len={} out={outlen}", bytes.len()));
+                let props: &[&str] = if bytes.len() < overhead || bytes.len() > MAXMSG || outlen < needed { &["C10", "C14"] } else { &["C10"] };
+                self.flag(props, "panic", &format!("{site}/{cls}"), &format!("read_message panicked: {p}; len={} out={outlen}", bytes.len()));
                 self.stats.aborted_by_panic += 1;
                 node.st = St::Gone("panic");
                 return;
@@ -1672,7 +1675,8 @@ impl World {
         };
         let res = match res {
             Err(p) => {
-                self.flag(&["C10"], "panic", &format!("{site}/{srckind}"), &format!("transport read panicked: {p}; len={} out={outlen}", bytes.len()));
+                let props: &[&str] = if bytes.len() < TAGLEN || bytes.len() > MAXMSG || outlen < needed { &["C10", "C14"] } else { &["C10"] };
+                self.flag(props, "panic", &format!("{site}/{srckind}"), &format!("transport read panicked: {p}; len={} out={outlen}", bytes.len()));
                 self.stats.aborted_by_panic += 1;
                 node.st = St::Gone("panic");
                 return;
